@@ -147,9 +147,9 @@ impl PropReport {
             }
         }
         if let Some(label) = &self.secondary {
-            self.merge_secondary(label, wall_s, new_violations + known_hits);
+            self.merge_secondary(label, wall_s, new_violations);
         } else {
-            self.write_evidence(wall_s, new_violations + known_hits);
+            self.write_evidence(wall_s, new_violations, known_hits);
         }
         let states: u64 = self.specs.iter().map(|s| s.states).sum();
         let transitions: u64 = self.specs.iter().map(|s| s.transitions).sum();
@@ -198,7 +198,7 @@ impl PropReport {
         let _ = std::fs::write(&p, serde_json::to_string_pretty(&ev).unwrap());
     }
 
-    fn write_evidence(&self, wall_s: f64, violations: u64) {
+    fn write_evidence(&self, wall_s: f64, violations: u64, known_findings: u64) {
         let states: u64 = self.specs.iter().map(|s| s.states).sum();
         let transitions: u64 = self.specs.iter().map(|s| s.transitions).sum();
         let maximal: u64 = self.specs.iter().map(|s| s.maximal).sum();
@@ -253,6 +253,7 @@ impl PropReport {
                 "rule": self.rule,
                 "specs": specs,
                 "extra": self.extra,
+                "known_findings_reproduced": known_findings,
                 "explanation": "every transition is a call into the real `average` code (no abstract model); traces_validated_against_impl counts the maximal histories of the bounded space, all executed on the implementation",
             },
             "assumptions": self.assumptions,
